@@ -49,6 +49,8 @@ def make_program(items_a, via, items_b=None, shape='flat'):
         effects, returned = [], {}
         for index, (key, aref) in enumerate(items):
             how = via if via != 'both' else ('call' if index % 2 == 0 else 'ret')
+            if key in returned:
+                how = 'call'  # a second awaitable under a key that is already being returned can only be handed over by a call
             if how == 'call':
                 effects.append({'e': 'toctx', 'key': key, 'ref': aref})
             else:
@@ -125,6 +127,11 @@ def random_case(rng, tier):
         else:
             items_a.append((f'k{index}', {'fut': fut_id}))
             fut_id += 1
+    if rng.random() < 0.15:
+        # two awaitables handed over under the SAME key by one step: both are awaited (which result ends up under the key
+        # is not specified and not checked)
+        items_a.append((rng.choice(items_a)[0], {'fut': fut_id}))
+        fut_id += 1
     for index, (key, aref) in enumerate(items_a):
         if 'fut' in aref and rng.random() < 0.2:
             # already complete when the step hands it over
@@ -308,7 +315,13 @@ def _oracle(engine, result, case, drive):
             if pending:
                 result.violate('barrier_passed_early', name, f'step {name} started while {pending} were not done')
             view = entries[name][3]
+            ambiguous = {key for prior in order[:index] for key, _ in barriers[prior]
+                         if [k for k, _ in barriers[prior]].count(key) > 1}
+            if ambiguous:
+                result.counters['probe:same_key_twice_in_one_step'] += 1
             for key, aref in assigned.items():
+                if key in ambiguous:
+                    continue
                 future = awaitable(aref)
                 if future is None or not future.done() or failed(future):
                     continue
